@@ -93,6 +93,38 @@ CLAIMED = {
    design_ref='DESIGN.md section 3, C05',
    note='A hang is a budget of ceil(L/req)+2*#bounds+10 _check_dz calls; meshes above the plane cap are not executed in the full driver.',
    technique='deterministic simulation: construction of the simulated clock under a deterministic step budget (bounded liveness)'),
+ 'C16': dict(
+   category='exploration',
+   text=('Seeded search over histories, process schedules and crash points: (A) seeded '
+         'sequences of model constructions / sweeps / save+load / input clones on one '
+         'DASSH_Input with a deep structural snapshot after every operation and digest '
+         'equality of every model and result built from the same (input, time point); (B) '
+         'the real dassh main() serially, under SimPool (seeded task order, task->worker '
+         'assignment, worker reuse) and one time point at a time, outputs compared per time '
+         'point (dump CSVs bytewise, dassh.out with the date masked, pickled reactors by '
+         'state digest, own directory); (C) crash at a seeded I/O event or tick with torn '
+         'unflushed data, or ENOSPC/EIO, then restart in the dirty directory; (D) wall-clock '
+         'jumps and permuted directory listings.'),
+   design_ref='DESIGN.md section 3, C16',
+   note=('SimPool is an in-process model of multiprocessing.Pool (arguments pickled at '
+         'submission, worker death on SystemExit, results delivered through get()); '
+         'interleaving is at task granularity. Nothing is asserted about an interrupted '
+         'execution itself. User-power inputs only.'),
+   technique='deterministic simulation: SimPool process schedules, SimFS crash/restart fault injection, construction histories'),
+ 'C18': dict(
+   category='fault_enumeration',
+   text=('Single-fault injection into valid generated inputs: 13 semantic fault kinds from '
+         'the classes the property lists plus file-level faults (truncate, torn last row, '
+         'flipped bit, dropped column, empty file) on the input and power files, and the '
+         'unfaulted worlds (incl. every correlation combination the reader accepts and '
+         'three-duct bundles); each executed with the real main() serially and under SimPool. '
+         'Oracle over the recorded history: error verdict with a logged message before the '
+         'first temperature event, no unhandled exception, no hang (deterministic budget), no '
+         'parent deadlock on a verdict reached in a pool worker, no NaN/inf/non-positive '
+         'temperature in saved results.'),
+   design_ref='DESIGN.md section 3, C18',
+   note='Single faults only; sampled, not exhaustive, over the fault positions inside files. User-power inputs only.',
+   technique='deterministic simulation: input/file fault injection with verdict-ordering oracle over the event history, serial and SimPool execution'),
  'C06': dict(
    category='exploration',
    text=('Seeded search over worlds and schedules: every generated multi-assembly '
